@@ -811,7 +811,7 @@ Proof.
   intros m g. unfold wf_graph_b, wf_graph. cbv zeta.
   rewrite !andb_true_iff, Nat.ltb_lt, !nodup_b_NoDup, !forallb_forall. unfold glen, nlen.
   split.
-  - intros ((((A & B) & C) & D) & E). repeat split; auto.
+  - intros (A & (((B & C) & D) & E)). repeat split; auto.
     + intros r Hr. apply Nat.ltb_lt. apply C; exact Hr.
     + specialize (E r H). apply andb_true_iff in E. apply nodup_b_NoDup. apply E.
     + intros p Hp. specialize (E r H). apply andb_true_iff in E. destruct E as [_ E].
@@ -913,6 +913,9 @@ Definition cross_keeps_wf (f : nat -> nat -> mem -> gref -> gref -> mem * list g
     gl <= g1 < glen m -> gl <= g2 < glen m -> wf_graph m g1 -> wf_graph m g2 ->
     forall g, In g (snd (f t k m g1 g2)) -> wf_graph (fst (f t k m g1 g2)) g.
 
+Lemma fresh_individuals_length : forall po gs u, List.length (fresh_individuals po u gs) = List.length gs.
+Proof. induction gs; intros; simpl; auto. Qed.
+
 Section Wf.
   Variable P : config.
   Variable verifier : mem -> gref -> bool.
@@ -921,6 +924,7 @@ Section Wf.
   Variable crossfun : nat -> nat -> mem -> gref -> gref -> mem * list gref.
   Hypothesis Hmut : mut_footprint mutfun.
   Hypothesis Hcross : cross_footprint crossfun.
+  Hypothesis Hver : stable1 verifier.
   Hypothesis Wmut : mut_keeps_wf mutfun.
   Hypothesis Wcross : cross_keeps_wf crossfun.
 
@@ -1061,10 +1065,435 @@ Section Wf.
       assert (Hs1 : scoped (smem s1)) by (eapply sext_scoped; eauto).
       assert (Hv1 : forall j, In j pop -> wf_ind s1 j).
       { intros j Hj. apply (wf_ind_sext s s1 j); [apply Hv; right; exact Hj|exact X1]. }
-      pose proof (mutation_map_spec P verifier mutfun Hmut (fun m m' g => I) pop (tl cs) s1 Hs1
+      pose proof (mutation_map_spec P verifier mutfun Hmut Hver pop (tl cs) s1 Hs1
                     (fun j Hj => wf_ind_valid s1 j (Hv1 j Hj))) as X2.
       specialize (IH (tl cs) s1 Hs1 Hv1).
       destruct (mutation_map P verifier mutfun (tl cs) s1 pop) as [s2 rs] eqn:E2. simpl in *.
       eapply all_new_wf_trans; eauto. apply X2.
   Qed.
+
+
+  Lemma crossover_one_wf : forall c s i1 i2, scoped (smem s) -> wf_ind s i1 -> wf_ind s i2 ->
+    all_new_wf s (fst (crossover_one P verifier crossfun c s i1 i2)).
+  Proof.
+    intros c s i1 i2 Hs [Hi1 W1] [Hi2 W2]. unfold crossover_one. cbv zeta.
+    destruct (negb (igraph (get_ind s i1) =? igraph (get_ind s i2)) && xc_coin c &&
+              negb (type_is_none P (xc_type c))).
+    2: { simpl. intros o Ho. lia. }
+    pose proof (cross_attempts_wf (max_attempts P) (xc_type c) (xc_atts c) (smem s) _ _ Hs W1 W2) as A.
+    destruct (cross_attempts verifier crossfun (max_attempts P) (xc_type c) (xc_atts c) (smem s)
+                (igraph (get_ind s i1)) (igraph (get_ind s i2))) as [m' [gs|]] eqn:E; simpl in A; simpl.
+    - intros o Ho. simpl in Ho. rewrite app_length, fresh_individuals_length in Ho.
+      destruct (nth_error gs (o - List.length (ih s))) as [g|] eqn:Eg.
+      2: { apply nth_error_None in Eg. lia. }
+      unfold get_ind. simpl. rewrite app_nth2 by lia.
+      erewrite nth_error_nth; [|apply fresh_individuals_nth; exact Eg]. simpl.
+      apply A. eapply nth_error_In; eauto.
+    - intros o Ho. simpl in Ho. lia.
+  Qed.
+
+  Lemma crossover_pairs_wf : forall prs cs s, scoped (smem s) ->
+    (forall a b, In (a, b) prs -> wf_ind s a /\ wf_ind s b) ->
+    all_new_wf s (fst (crossover_pairs P verifier crossfun cs s prs)).
+  Proof.
+    induction prs as [|[i1 i2] prs IH]; intros cs s Hs Hv; simpl.
+    - intros o Ho. lia.
+    - destruct (Hv i1 i2 (or_introl eq_refl)) as [V1 V2].
+      pose proof (crossover_one_spec P verifier crossfun Hcross (hd (mk_xchoice 0 false []) cs) s i1 i2 Hs
+                    (wf_ind_valid _ _ V1) (wf_ind_valid _ _ V2)) as [X1 _].
+      pose proof (crossover_one_wf (hd (mk_xchoice 0 false []) cs) s i1 i2 Hs V1 V2) as A1.
+      destruct (crossover_one P verifier crossfun (hd (mk_xchoice 0 false []) cs) s i1 i2) as [s1 o1] eqn:E1.
+      simpl in X1, A1.
+      assert (Hs1 : scoped (smem s1)) by (eapply sext_scoped; eauto).
+      assert (Hv1 : forall a b, In (a, b) prs -> wf_ind s1 a /\ wf_ind s1 b).
+      { intros a b Hab. destruct (Hv a b (or_intror Hab)) as [Va Vb].
+        split; [apply (wf_ind_sext s s1 a Va X1)|apply (wf_ind_sext s s1 b Vb X1)]. }
+      pose proof (crossover_pairs_spec P verifier crossfun Hcross Hver prs (tl cs) s1 Hs1
+                    (fun a b Hab => conj (wf_ind_valid _ _ (proj1 (Hv1 a b Hab)))
+                                         (wf_ind_valid _ _ (proj2 (Hv1 a b Hab))))) as X2.
+      specialize (IH (tl cs) s1 Hs1 Hv1).
+      destruct (crossover_pairs P verifier crossfun (tl cs) s1 prs) as [s2 os] eqn:E2. simpl in *.
+      eapply all_new_wf_trans; eauto. apply X2.
+  Qed.
 End Wf.
+
+(* ------------------------------------------------------------------------------------ *)
+(* Frame and freshness of the two operators without any assumption about the verifier     *)
+(* ------------------------------------------------------------------------------------ *)
+(* every individual created between s and s' holds a graph object created after s *)
+Definition created_fresh (s s' : store) : Prop :=
+  forall o, List.length (ih s) <= o < List.length (ih s') -> glen (smem s) <= igraph (get_ind s' o).
+
+Definition sext2 (s s' : store) : Prop := sext s s' /\ created_fresh s s'.
+
+Lemma sext2_refl : forall s, scoped (smem s) -> sext2 s s.
+Proof. intros s H. split; [apply sext_refl; exact H|]. intros o Ho. lia. Qed.
+
+Lemma sext2_trans : forall s s1 s2, sext2 s s1 -> sext2 s1 s2 -> sext2 s s2.
+Proof.
+  intros s s1 s2 [X1 C1] [X2 C2]. split; [eapply sext_trans; eauto|].
+  intros o Ho. destruct (Nat.lt_ge_cases o (List.length (ih s1))) as [L|L].
+  - rewrite (sext_get_ind s1 s2 o X2 L). apply C1. lia.
+  - specialize (C2 o ltac:(lia)). destruct X1 as ((_ & G & _) & _). destruct G. lia.
+Qed.
+
+Section NoVerifierAssumption.
+  Variable P : config.
+  Variable verifier : mem -> gref -> bool.
+  Variable geq : mem -> gref -> gref -> bool.
+  Variable mutfun : nat -> nat -> mem -> gref -> mem * gref.
+  Variable crossfun : nat -> nat -> mem -> gref -> gref -> mem * list gref.
+  Hypothesis Hmut : mut_footprint mutfun.
+  Hypothesis Hcross : cross_footprint crossfun.
+
+  Lemma mutation_one_sext2 : forall c s i, scoped (smem s) -> valid_ind s i ->
+    sext2 s (fst (mutation_one P verifier mutfun c s i)).
+  Proof.
+    intros c s i Hs Hv. split; [apply (mutation_one_spec P verifier mutfun Hmut c s i Hs Hv)|].
+    destruct Hv as (Hi & Hg & Hc). unfold mutation_one.
+    destruct (mc_coin c && negb (type_is_none P (mc_type c))); cbv zeta.
+    2: { simpl. intros o Ho. lia. }
+    pose proof (mut_attempts_safe verifier mutfun Hmut (max_attempts P) (mc_type c) (mc_atts c)
+                  (smem s) (igraph (get_ind s i)) Hs Hg Hc) as A. cbv zeta in A.
+    destruct (mut_attempts verifier mutfun (max_attempts P) (mc_type c) (mc_atts c) (smem s)
+                (igraph (get_ind s i))) as [m' [g'|]] eqn:E; simpl in A; destruct A as [St R]; simpl.
+    - intros o Ho. simpl in Ho. rewrite app_length in Ho. simpl in Ho.
+      assert (o = List.length (ih s)) by lia. subst o.
+      unfold get_ind. simpl. rewrite app_nth2 by lia. rewrite Nat.sub_diag. simpl. lia.
+    - intros o Ho. simpl in Ho. lia.
+  Qed.
+
+  Lemma mutation_map_sext2 : forall pop cs s, scoped (smem s) -> (forall i, In i pop -> valid_ind s i) ->
+    sext2 s (fst (mutation_map P verifier mutfun cs s pop)).
+  Proof.
+    induction pop as [|i pop IH]; intros cs s Hs Hv; simpl.
+    - apply sext2_refl; exact Hs.
+    - pose proof (mutation_one_sext2 (hd (mk_mchoice 0 false []) cs) s i Hs (Hv i (or_introl eq_refl))) as X1.
+      destruct (mutation_one P verifier mutfun (hd (mk_mchoice 0 false []) cs) s i) as [s1 r1] eqn:E1.
+      simpl in X1.
+      assert (Hs1 : scoped (smem s1)) by (eapply sext_scoped; apply X1).
+      assert (Hv1 : forall j, In j pop -> valid_ind s1 j).
+      { intros j Hj. apply (valid_ind_sext s s1 j Hs); [apply Hv; right; exact Hj|apply X1]. }
+      specialize (IH (tl cs) s1 Hs1 Hv1).
+      destruct (mutation_map P verifier mutfun (tl cs) s1 pop) as [s2 rs] eqn:E2. simpl in *.
+      eapply sext2_trans; eauto.
+  Qed.
+
+  Lemma mutation_call_sext2 : forall cs s pop, scoped (smem s) -> (forall i, In i pop -> valid_ind s i) ->
+    sext2 s (fst (mutation_call P verifier geq mutfun cs s pop)).
+  Proof.
+    intros cs s pop Hs Hv. destruct pop as [|i pop]; [apply sext2_refl; exact Hs|].
+    rewrite (proj1 (mutation_call_result P verifier geq mutfun cs s (i :: pop) ltac:(discriminate))).
+    apply mutation_map_sext2; assumption.
+  Qed.
+
+  Lemma crossover_one_sext2 : forall c s i1 i2, scoped (smem s) -> valid_ind s i1 -> valid_ind s i2 ->
+    sext2 s (fst (crossover_one P verifier crossfun c s i1 i2)).
+  Proof.
+    intros c s i1 i2 Hs V1 V2.
+    split; [apply (crossover_one_spec P verifier crossfun Hcross c s i1 i2 Hs V1 V2)|].
+    destruct V1 as (Hi1 & Hg1 & Hc1), V2 as (Hi2 & Hg2 & Hc2). unfold crossover_one. cbv zeta.
+    destruct (negb (igraph (get_ind s i1) =? igraph (get_ind s i2)) && xc_coin c &&
+              negb (type_is_none P (xc_type c))).
+    2: { simpl. intros o Ho. lia. }
+    pose proof (cross_attempts_safe verifier crossfun Hcross (max_attempts P) (xc_type c) (xc_atts c)
+                  (smem s) _ _ Hs Hg1 Hc1 Hg2 Hc2) as A. cbv zeta in A.
+    destruct (cross_attempts verifier crossfun (max_attempts P) (xc_type c) (xc_atts c) (smem s)
+                (igraph (get_ind s i1)) (igraph (get_ind s i2))) as [m' [gs|]] eqn:E;
+      simpl in A; destruct A as [St R]; simpl.
+    - intros o Ho. simpl in Ho. rewrite app_length, fresh_individuals_length in Ho.
+      destruct (nth_error gs (o - List.length (ih s))) as [g|] eqn:Eg.
+      2: { apply nth_error_None in Eg. lia. }
+      unfold get_ind. simpl. rewrite app_nth2 by lia.
+      erewrite nth_error_nth; [|apply fresh_individuals_nth; exact Eg]. simpl.
+      apply (R g). eapply nth_error_In; eauto.
+    - intros o Ho. simpl in Ho. lia.
+  Qed.
+
+  Lemma crossover_pairs_sext2 : forall prs cs s, scoped (smem s) ->
+    (forall a b, In (a, b) prs -> valid_ind s a /\ valid_ind s b) ->
+    sext2 s (fst (crossover_pairs P verifier crossfun cs s prs)).
+  Proof.
+    induction prs as [|[i1 i2] prs IH]; intros cs s Hs Hv; simpl.
+    - apply sext2_refl; exact Hs.
+    - destruct (Hv i1 i2 (or_introl eq_refl)) as [V1 V2].
+      pose proof (crossover_one_sext2 (hd (mk_xchoice 0 false []) cs) s i1 i2 Hs V1 V2) as X1.
+      destruct (crossover_one P verifier crossfun (hd (mk_xchoice 0 false []) cs) s i1 i2) as [s1 o1] eqn:E1.
+      simpl in X1.
+      assert (Hs1 : scoped (smem s1)) by (eapply sext_scoped; apply X1).
+      assert (Hv1 : forall a b, In (a, b) prs -> valid_ind s1 a /\ valid_ind s1 b).
+      { intros a b Hab. destruct (Hv a b (or_intror Hab)) as [Va Vb].
+        split; [apply (valid_ind_sext s s1 a Hs Va)|apply (valid_ind_sext s s1 b Hs Vb)]; apply X1. }
+      specialize (IH (tl cs) s1 Hs1 Hv1).
+      destruct (crossover_pairs P verifier crossfun (tl cs) s1 prs) as [s2 os] eqn:E2. simpl in *.
+      eapply sext2_trans; eauto.
+  Qed.
+
+  Lemma crossover_call_sext2 : forall cs s pop, scoped (smem s) -> (forall i, In i pop -> valid_ind s i) ->
+    sext2 s (fst (crossover_call P verifier crossfun cs s pop)).
+  Proof.
+    intros cs s pop Hs Hv. unfold crossover_call.
+    assert (Hp : forall a b, In (a, b) (pairs_of pop) -> valid_ind s a /\ valid_ind s b).
+    { intros a b H. apply pairs_of_In in H. destruct H. split; apply Hv; assumption. }
+    pose proof (crossover_pairs_sext2 (pairs_of pop) cs s Hs Hp) as A.
+    rewrite <- zip_evens_odds in A.
+    destruct pop as [|p [|q pop]].
+    - simpl. apply sext2_refl; exact Hs.
+    - simpl. apply sext2_refl; exact Hs.
+    - destruct (crossover_pairs P verifier crossfun cs s (zip (evens (p :: q :: pop)) (odds (p :: q :: pop))))
+        as [s' out] eqn:E. simpl in *. exact A.
+  Qed.
+End NoVerifierAssumption.
+
+(* ------------------------------------------------------------------------------------ *)
+(* Part 4: the theorems of property C02                                                  *)
+(* ------------------------------------------------------------------------------------ *)
+Lemma Forall2_In_r : forall A B (R : A -> B -> Prop) l r b, Forall2 R l r -> In b r ->
+  exists a, In a l /\ R a b.
+Proof.
+  intros A B R l r b F. induction F as [|x y l r Hxy F IH]; intros Hb; [destruct Hb|].
+  destruct Hb as [Hb|Hb]; [subst; exists x; simpl; auto|].
+  destruct (IH Hb) as [a [Ha Ra]]. exists a. simpl. auto.
+Qed.
+
+(* every object that existed in s is exactly as it was in s' *)
+Definition untouched (s s' : store) : Prop :=
+  (forall r, r < nlen (smem s) -> nth_error (mn (smem s')) r = nth_error (mn (smem s)) r) /\
+  (forall g, g < glen (smem s) -> nth_error (mg (smem s')) g = nth_error (mg (smem s)) g) /\
+  (forall i, i < List.length (ih s) -> nth_error (ih s') i = nth_error (ih s) i).
+
+Lemma sext_untouched : forall s s', sext s s' -> untouched s s'.
+Proof.
+  intros s s' X. split; [|split].
+  - apply X.
+  - apply X.
+  - intros i Hi. apply sext_nth_ind; assumption.
+Qed.
+
+(* objects reachable from a graph that existed in s and from a graph created later are disjoint *)
+Lemma sext_no_sharing : forall s s' gi go x, scoped (smem s) -> sext s s' ->
+  gi < glen (smem s) -> glen (smem s) <= go ->
+  reach (smem s') gi x -> reach (smem s') go x -> False.
+Proof.
+  intros s s' gi go x Hs ((F & G & S & C) & _) Hgi Hgo R1 R2.
+  pose proof (reach_old (smem s) (smem s') gi x Hs F Hgi R1).
+  pose proof (reach_fresh _ _ (smem s') go x C Hgo R2). lia.
+Qed.
+
+Section Main.
+  Variable P : config.
+  Variable verifier : mem -> gref -> bool.
+  Variable geq : mem -> gref -> gref -> bool.
+  Variable mutfun : nat -> nat -> mem -> gref -> mem * gref.
+  Variable crossfun : nat -> nat -> mem -> gref -> gref -> mem * list gref.
+  Hypothesis Hmut : mut_footprint mutfun.
+  Hypothesis Hcross : cross_footprint crossfun.
+  Hypothesis Hver : stable1 verifier.
+
+  (* a population of valid individuals in a memory without dangling references *)
+  Definition valid_pop (s : store) (pop : list iref) : Prop :=
+    scoped (smem s) /\ forall i, In i pop -> valid_ind s i.
+
+  Definition wf_pop (s : store) (pop : list iref) : Prop :=
+    scoped (smem s) /\ forall i, In i pop -> wf_ind s i.
+
+  Lemma wf_pop_valid : forall s pop, wf_pop s pop -> valid_pop s pop.
+  Proof. intros s pop [A B]. split; [exact A|]. intros i Hi. apply wf_ind_valid. apply B; exact Hi. Qed.
+
+  Definition mcall := mutation_call P verifier geq mutfun.
+  Definition xcall := crossover_call P verifier crossfun.
+
+  (* the consecutive pairs Crossover.__call__ forms, and its answer on them *)
+  Lemma crossover_call_spec : forall cs s pop, valid_pop s pop ->
+    sext s (fst (xcall cs s pop)) /\
+    match pop with
+    | [p] => xcall cs s pop = (s, RList [p])
+    | _ => exists oss, snd (xcall cs s pop) = RList (List.concat oss) /\
+                       Forall2 (cross_rel P verifier s (fst (xcall cs s pop))) (pairs_of pop) oss
+    end.
+  Proof.
+    intros cs s pop [Hs Hv]. unfold xcall, crossover_call.
+    assert (Hp : forall a b, In (a, b) (pairs_of pop) -> valid_ind s a /\ valid_ind s b).
+    { intros a b H. apply pairs_of_In in H. destruct H. split; apply Hv; assumption. }
+    pose proof (crossover_pairs_spec P verifier crossfun Hcross Hver (pairs_of pop) cs s Hs Hp) as A.
+    cbv zeta in A. rewrite <- zip_evens_odds in A.
+    destruct pop as [|p [|q pop]].
+    - simpl. split; [apply sext_refl; exact Hs|]. exists []. split; [reflexivity|constructor].
+    - simpl. split; [apply sext_refl; exact Hs|reflexivity].
+    - rewrite <- zip_evens_odds.
+      destruct (crossover_pairs P verifier crossfun cs s (zip (evens (p :: q :: pop)) (odds (p :: q :: pop))))
+        as [s' out] eqn:E.
+      simpl fst in *. simpl snd in *. destruct A as [X [oss [Eo R]]].
+      split; [exact X|]. exists oss. split; [rewrite Eo; reflexivity|exact R].
+  Qed.
+
+  (* (1) PARENTS UNTOUCHED *)
+  Theorem mutation_parents_untouched : forall cs s pop, valid_pop s pop ->
+    untouched s (fst (mcall cs s pop)).
+  Proof.
+    intros cs s pop [Hs Hv]. apply sext_untouched.
+    apply (mutation_call_sext2 P verifier geq mutfun Hmut cs s pop Hs Hv).
+  Qed.
+
+  Theorem crossover_parents_untouched : forall cs s pop, valid_pop s pop ->
+    untouched s (fst (xcall cs s pop)).
+  Proof.
+    intros cs s pop [Hs Hv]. apply sext_untouched.
+    apply (crossover_call_sext2 P verifier crossfun Hcross cs s pop Hs Hv).
+  Qed.
+
+  (* (2) NO SHARING, for every individual the call creates (returned or not): no node object is
+     reachable both from its graph and from the graph of a member of the population *)
+  Lemma sext2_no_sharing : forall s s' pop o i x, valid_pop s pop -> sext2 s s' ->
+    List.length (ih s) <= o < List.length (ih s') -> In i pop ->
+    reach (smem s') (igraph (get_ind s' o)) x -> reach (smem s') (igraph (get_ind s' i)) x -> False.
+  Proof.
+    intros s s' pop o i x [Hs Hv] [X C] Ho Hi R1 R2.
+    destruct (Hv i Hi) as (Hi1 & Hi2 & _). rewrite (sext_get_ind _ _ i X Hi1) in R2.
+    eapply sext_no_sharing; [exact Hs|exact X|exact Hi2|apply (C o Ho)|exact R2|exact R1].
+  Qed.
+
+  Theorem mutation_created_no_sharing : forall cs s pop o i x, valid_pop s pop ->
+    List.length (ih s) <= o < List.length (ih (fst (mcall cs s pop))) -> In i pop ->
+    reach (smem (fst (mcall cs s pop))) (igraph (get_ind (fst (mcall cs s pop)) o)) x ->
+    reach (smem (fst (mcall cs s pop))) (igraph (get_ind (fst (mcall cs s pop)) i)) x -> False.
+  Proof.
+    intros cs s pop o i x Hvp. apply (sext2_no_sharing s _ pop o i x Hvp).
+    apply (mutation_call_sext2 P verifier geq mutfun Hmut cs s pop (proj1 Hvp) (proj2 Hvp)).
+  Qed.
+
+  Theorem crossover_created_no_sharing : forall cs s pop o i x, valid_pop s pop ->
+    List.length (ih s) <= o < List.length (ih (fst (xcall cs s pop))) -> In i pop ->
+    reach (smem (fst (xcall cs s pop))) (igraph (get_ind (fst (xcall cs s pop)) o)) x ->
+    reach (smem (fst (xcall cs s pop))) (igraph (get_ind (fst (xcall cs s pop)) i)) x -> False.
+  Proof.
+    intros cs s pop o i x Hvp. apply (sext2_no_sharing s _ pop o i x Hvp).
+    apply (crossover_call_sext2 P verifier crossfun Hcross cs s pop (proj1 Hvp) (proj2 Hvp)).
+  Qed.
+
+  (* (3) OUTPUTS CLASSIFIED, mutation: position by position the answer is the member itself or a
+     new verified individual whose operator names "mutation", the type applied and [member];
+     the returned list is a subsequence of these (the drop rule) *)
+  Theorem mutation_outputs_aligned : forall cs s pop, valid_pop s pop ->
+    exists rs, Forall2 (mut_rel P verifier s (fst (mcall cs s pop))) pop rs /\
+               subseq (result_list (snd (mcall cs s pop))) (map fst rs).
+  Proof.
+    intros cs s pop [Hs Hv]. apply (mutation_call_spec P verifier geq mutfun Hmut Hver cs s pop Hs Hv).
+  Qed.
+
+  Theorem mutation_outputs_classified : forall cs s pop o, valid_pop s pop ->
+    In o (result_list (snd (mcall cs s pop))) ->
+    (In o pop /\ o < List.length (ih s)) \/
+    exists p po, In p pop /\ op_desc P s "mutation"%string [p] po /\
+                 new_with verifier s (fst (mcall cs s pop)) po o.
+  Proof.
+    intros cs s pop o Hvp Ho. destruct (mutation_outputs_aligned cs s pop Hvp) as [rs [F Sub]].
+    pose proof (subseq_In _ _ _ o Sub Ho) as Hin. apply in_map_iff in Hin. destruct Hin as [r [Er Hr]].
+    destruct (Forall2_In_r _ _ _ _ _ r F Hr) as [p [Hp [Hrel|[po [D N]]]]].
+    - left. rewrite <- Er, Hrel. split; [exact Hp|]. apply (proj2 Hvp p Hp).
+    - right. exists p, po. rewrite <- Er. auto.
+  Qed.
+
+  (* (3)+(4) crossover: the answer is the concatenation, pair after pair of consecutive members,
+     of the pair itself or of new verified individuals sharing one operator that names
+     "crossover", the type applied and (p_2k, p_2k+1) in this order *)
+  Theorem crossover_pairs_thm : forall cs s pop, valid_pop s pop -> List.length pop <> 1 ->
+    exists oss, snd (xcall cs s pop) = RList (List.concat oss) /\
+                Forall2 (cross_rel P verifier s (fst (xcall cs s pop))) (pairs_of pop) oss.
+  Proof.
+    intros cs s pop H Hl. destruct (crossover_call_spec cs s pop H) as [_ A].
+    destruct pop as [|p [|q pop]]; try exact A. simpl in Hl. congruence.
+  Qed.
+
+  Theorem crossover_single : forall cs s p, xcall cs s [p] = (s, RList [p]).
+  Proof. reflexivity. Qed.
+
+  Theorem crossover_outputs_classified : forall cs s pop o, valid_pop s pop ->
+    In o (result_list (snd (xcall cs s pop))) ->
+    (In o pop /\ o < List.length (ih s)) \/
+    exists p1 p2 po, In (p1, p2) (pairs_of pop) /\ op_desc P s "crossover"%string [p1; p2] po /\
+                     new_with verifier s (fst (xcall cs s pop)) po o.
+  Proof.
+    intros cs s pop o Hvp Ho. destruct (crossover_call_spec cs s pop Hvp) as [_ A].
+    destruct pop as [|p [|q pop]].
+    - destruct A as [oss [E F]]. inversion F; subst. rewrite E in Ho. destruct Ho.
+    - rewrite A in Ho. simpl in Ho. left. destruct Ho as [Ho|[]]. subst. split; [simpl; auto|].
+      apply (proj2 Hvp o). simpl; auto.
+    - destruct A as [oss [E F]]. rewrite E in Ho. simpl in Ho.
+      apply in_concat in Ho. destruct Ho as [os [Hos Ho]].
+      destruct (Forall2_In_r _ _ _ _ _ os F Hos) as [[p1 p2] [Hp [Hrel|[po [D [N _]]]]]].
+      + left. pose proof (pairs_of_In _ _ _ _ Hp) as [H1 H2]. simpl in Hrel. subst os.
+        destruct Ho as [Ho|[Ho|[]]]; subst o; (split; [assumption|]);
+          [apply (proj2 Hvp p1 H1)|apply (proj2 Hvp p2 H2)].
+      + right. exists p1, p2, po. split; [exact Hp|]. split; [exact D|].
+        rewrite Forall_forall in N. apply N; exact Ho.
+  Qed.
+
+  (* (2) NO SHARING: no node object is reachable both from the graph of a new output and from
+     the graph of a member of the population *)
+  Lemma new_with_igraph : forall s0 sF po o, new_with verifier s0 sF po o ->
+    glen (smem s0) <= igraph (get_ind sF o).
+  Proof.
+    intros s0 sF po o (_ & u & g' & N & B & _). unfold get_ind.
+    rewrite (nth_error_nth _ _ _ N). simpl. lia.
+  Qed.
+
+  Theorem mutation_no_sharing : forall cs s pop o i x, valid_pop s pop ->
+    In o (result_list (snd (mcall cs s pop))) -> List.length (ih s) <= o -> In i pop ->
+    reach (smem (fst (mcall cs s pop))) (igraph (get_ind (fst (mcall cs s pop)) o)) x ->
+    reach (smem (fst (mcall cs s pop))) (igraph (get_ind (fst (mcall cs s pop)) i)) x -> False.
+  Proof.
+    intros cs s pop o i x Hvp Ho Hnew Hi R1 R2.
+    assert (X : sext s (fst (mcall cs s pop))).
+    { destruct Hvp as [Hs Hv]. apply (mutation_call_spec P verifier geq mutfun Hmut Hver cs s pop Hs Hv). }
+    destruct (mutation_outputs_classified cs s pop o Hvp Ho) as [[_ Hlt]|[p [po [_ [_ N]]]]]; [lia|].
+    destruct (proj2 Hvp i Hi) as (Hi1 & Hi2 & _).
+    rewrite (sext_get_ind _ _ i X Hi1) in R2.
+    eapply sext_no_sharing; [apply Hvp|exact X|exact Hi2| |exact R2|exact R1].
+    eapply new_with_igraph; eauto.
+  Qed.
+
+  Theorem crossover_no_sharing : forall cs s pop o i x, valid_pop s pop ->
+    In o (result_list (snd (xcall cs s pop))) -> List.length (ih s) <= o -> In i pop ->
+    reach (smem (fst (xcall cs s pop))) (igraph (get_ind (fst (xcall cs s pop)) o)) x ->
+    reach (smem (fst (xcall cs s pop))) (igraph (get_ind (fst (xcall cs s pop)) i)) x -> False.
+  Proof.
+    intros cs s pop o i x Hvp Ho Hnew Hi R1 R2.
+    assert (X : sext s (fst (xcall cs s pop))) by apply (crossover_call_spec cs s pop Hvp).
+    destruct (crossover_outputs_classified cs s pop o Hvp Ho) as [[_ Hlt]|[p1 [p2 [po [_ [_ N]]]]]]; [lia|].
+    destruct (proj2 Hvp i Hi) as (Hi1 & Hi2 & _).
+    rewrite (sext_get_ind _ _ i X Hi1) in R2.
+    eapply sext_no_sharing; [apply Hvp|exact X|exact Hi2| |exact R2|exact R1].
+    eapply new_with_igraph; eauto.
+  Qed.
+
+  (* (5) OFFSPRING WELL-FORMED: given functions that keep the fresh graphs they work on
+     well-formed, every individual the operator creates holds a well-formed graph - in particular
+     no two of its nodes share a uid, whatever uids the parents have in common *)
+  Hypothesis Wmut : mut_keeps_wf mutfun.
+  Hypothesis Wcross : cross_keeps_wf crossfun.
+
+  Theorem mutation_offspring_wf : forall cs s pop, wf_pop s pop ->
+    all_new_wf s (fst (mcall cs s pop)).
+  Proof.
+    intros cs s pop [Hs Hv]. unfold mcall. destruct pop as [|i pop].
+    - simpl. intros o Ho. lia.
+    - rewrite (proj1 (mutation_call_result P verifier geq mutfun cs s (i :: pop) ltac:(discriminate))).
+      apply (mutation_map_wf P verifier mutfun Hmut Hver Wmut); assumption.
+  Qed.
+
+  Theorem crossover_offspring_wf : forall cs s pop, wf_pop s pop ->
+    all_new_wf s (fst (xcall cs s pop)).
+  Proof.
+    intros cs s pop [Hs Hv]. unfold xcall, crossover_call.
+    assert (Hp : forall a b, In (a, b) (pairs_of pop) -> wf_ind s a /\ wf_ind s b).
+    { intros a b H. apply pairs_of_In in H. destruct H. split; apply Hv; assumption. }
+    pose proof (crossover_pairs_wf P verifier crossfun Hcross Hver Wcross (pairs_of pop) cs s Hs Hp) as A.
+    rewrite <- zip_evens_odds in A.
+    destruct pop as [|p [|q pop]].
+    - simpl. intros o Ho. lia.
+    - simpl. intros o Ho. lia.
+    - destruct (crossover_pairs P verifier crossfun cs s (zip (evens (p :: q :: pop)) (odds (p :: q :: pop))))
+        as [s' out] eqn:E. simpl in *. exact A.
+  Qed.
+End Main.
